@@ -37,6 +37,8 @@ def astExpect : String :=
 /-! ### session tier: observed histories of real Sessions, judged by the observable-level specification `Obs`
 
   trace <ev> <ev> ...        → accept | reject:<index>:<event>:<clause>
+  traceU <ev> <ev> ...       the same for a Session whose statement cache cannot purge for capacity (MaxPreparedStmts 0
+                             or at least the number of distinct keys): every R must be justified (`Obs.justified`)
   events (no blanks inside):
     S:<c>:<q|b>:<key>/<nvals>,...        call c starts (query / batch), entries
     P:<f>:<key>:ok/<idhex>/<ncols>       the server received PREPARE number f of <key> and answers PREPARED
@@ -111,7 +113,9 @@ def why (o : Obs.OState String) : PConn.Ev String → String
       | some fl => if fl.key ≠ k then "flight-of-another-key" else "PREPARE-number-reused"
       | none => "?"
   | .rm k f =>
-    match o.flights f with
+    if o.strict && !Obs.justified o k f then
+      "entry-removed-although-its-PREPARE-neither-failed-nor-was-answered-UNPREPARED(cache-cannot-purge-for-capacity)"
+    else match o.flights f with
     | some fl => if fl.key ≠ k then "removed-under-another-key" else "flight-removed-twice"
     | none => "?"
   | .exec c ids _ =>
@@ -145,14 +149,14 @@ def why (o : Obs.OState String) : PConn.Ev String → String
   | .hang _ => "execution-never-returned(every-frame-answered;goroutine-blocked-inside-gocql)"
   | .cancel _ => "context-of-an-unknown-call"
 
-def judge (ws : List String) : String :=
+def judge (strict : Bool) (ws : List String) : String :=
   match ws.mapM parseEv with
   | none =>
     match ws.find? (fun w => (parseEv w).isNone) with
     | some w => "reject:event-outside-the-specification:" ++ w
     | none => "reject:unparsable"
   | some evs =>
-    match Obs.firstReject Obs.init evs 0 with
+    match Obs.firstReject (Obs.initB strict) evs 0 with
     | none => "accept"
     | some (i, o) =>
       let w := ws.getD i "?"
@@ -364,7 +368,8 @@ def step (s : St) (ws : List String) : St × String :=
     let p := s.prep
     ({ s with prep := { p with cache := { p.cache with items := [] } } }, "ev=" ++ showEvN p.cache.items.reverse)
   | ["ast", "prepareStatement"] => (s, astExpect)
-  | "trace" :: evs => (s, judge evs)
+  | "trace" :: evs => (s, judge false evs)
+  | "traceU" :: evs => (s, judge true evs)
   | "seq" :: rest => (s, runSeq rest)
   | ["cachelen", cp, mx] =>
     -- C14_lru_refines_map: len ≤ cap for cap > 0 (0 = unbounded)
